@@ -36,7 +36,7 @@ NEXT_W = "    fn next(&mut self) -> Option<Self::Item> {\n        let num_frames
 HINT = "    fn size_hint(&self) -> (usize, Option<usize>) {"
 
 REJECT = [
-    ("an overridden Iterator method (seeded C20-r2mut1)", sub(HINT, "    fn last(self) -> Option<Self::Item> { None }\n\n" + HINT), ""),
+    ("an overridden Iterator method (seeded C20-r2mut1)", sub(HINT, "    fn last(mut self) -> Option<Self::Item> { self.next() }\n\n" + HINT), "no counterpart"),
     ("an overridden nth", sub(HINT, "    fn nth(&mut self, n: usize) -> Option<Self::Item> { self.next() }\n\n" + HINT), "no counterpart"),
     ("size_hint removed", lambda s: s[:s.index(HINT)] + s[s.index("}\n\nimpl<S, W> Iterator for Windowed"):], "are gone"),
     ("a float clamp in Window::new (seeded C20-mut3)", sub("crate::rate(len as f64 - 1.0)", "crate::rate((len as f64 - 1.0).max(2.0))"), "max"),
